@@ -42,7 +42,7 @@ def plan(tier):
         "shards": 16,
         "budget_s": 50 if q else 700,
         "timeout_s": 420 if q else 2400,
-        "min_nontrivial": 30 if q else 1000,
+        "min_nontrivial": 30 if q else 500,
         "required_counters": ["oracle_no_deadlock", "oracle_recoveries_returned", "oracle_once_per_loss",
                               "barrier_released", "concurrent_recoveries"],
         "rule": "case = (program, set of simultaneously failing siblings, perturbation seed); programs: scatter n=2..8 with "
@@ -83,7 +83,8 @@ def programs(sh: Shard):
     # two shared lost ancestors (a, a2): every recovery needs both request locks
     add(C.combo_pipe_scatter_pipe(3), ["/b/0.0", "/b/0.1"])
     add(C.combo_pipe_scatter_pipe(4), ["/b/0.0", "/b/0.1", "/b2/0.2"])
-    add(C.combo_pipe_scatter_pipe(6), [f"/b/0.{i}" for i in range(5)])
+    if not sh.quick():
+        add(C.combo_pipe_scatter_pipe(6), [f"/b/0.{i}" for i in range(5)])
     # fail-stop/own faults released together: nothing shared is lost, recoveries still overlap
     add(C.scatter(4), [f"/b/0.{i}" for i in range(3)], kind="own")
     add(C.scatter(4), [f"/b/0.{i}" for i in range(3)], kind="soft")
@@ -111,7 +112,7 @@ def run_case(sh: Shard, case: dict) -> None:
 
     prog, faults, seed = case["prog"], case["faults"], case["seed"]
     res = R.run_sync(prog, faults, os.path.join(sh.scratch, "case"), seed=seed, max_retries=LIMIT, K=case.get("K", 3),
-                     max_yield=4, wall_timeout=sh.pick(60, 300))
+                     max_yield=4, wall_timeout=sh.pick(90, 300))
     key = (prog["shape"], C.fault_key(faults), seed)
     released = all(b[0] for b in res.barrier_open.values()) if res.barrier_open else False
     calls = [c for v in res.recover_calls.values() for c in v]
